@@ -275,6 +275,8 @@ class SyncInterpreter(BaseInterpreter[TContext, TEvent]):
                 actor.stop()
             finally:
                 self._actors.pop(actor_id, None)
+        # 🌐 A stopped actor must not stay addressable by its systemId.
+        self._unregister_from_system()
 
         # 2️⃣ Cancel all `after` timers by signaling their cancellation events
         for state_id in list(self._after_events.keys()):
